@@ -127,7 +127,7 @@ def evaluate(ctx, docs):
 
 def coq_case(doc, ns, u, text2, r2):
     """case for one (document, new URI): both XML terms share one interner / numeric table"""
-    term1, enc = xml2coq.encode_bytes(doc['xml'].encode('utf-8'))
+    term1, enc = xml2coq.encode_bytes(doc['xml'].encode('utf-8'), c05.new_enc())
     enc.uid = 0
     term2, _ = xml2coq.encode_bytes(text2.encode('utf-8'), enc)
     ve = c05.VEnc(enc)
